@@ -26,8 +26,10 @@ EXTENDS AccountJournal, Json, SequencesExt
 
 Trace == ndJsonDeserialize("trace.ndjson")
 
-VARIABLES l, bad, stats, tainted
-tvars == <<vars, l, bad, stats, tainted>>
+VARIABLES l, bad, stats, tainted,
+          ntouch,    \* AddFT(a, ft, 0) calls so far in this history (the only caller of accountObject.touch())
+          revTouch   \* a revert of this history undid such a call
+tvars == <<vars, l, bad, stats, tainted, ntouch, revTouch>>
 
 Tag(c, t) == IF c THEN <<>> ELSE <<t>>
 
@@ -36,10 +38,14 @@ Fresh(ev, j) == LET Occ(t) == Cardinality({i \in 1..Len(bad) : bad[i][2] = ev /\
                     keep == SelectSeq(j, LAMBDA t : Occ(t) < 20)
                 IN  [i \in 1..Len(keep) |-> <<l, ev, keep[i]>>]
 
-AcctFields == <<"ex", "empty", "nonce", "code", "csize", "chash", "st", "sui", "bal">>
-GlobFields == <<"refund", "logs", "logIdx", "accA", "accS", "tr">>
+AcctFields == <<"ex", "empty", "nonce", "code", "csize", "chash", "st", "sui", "bal", "ss", "ssC", "canT", "ft">>
+GlobFields == <<"refund", "logs", "logIdx", "accA", "accS", "tr", "bind", "bindEx">>
 AllFields  == AcctFields \o GlobFields
 NF == Len(AllFields)
+(* the query each field is the answer of (used in the tags) *)
+FieldName == <<"existence", "empty", "nonce", "code", "codeSize", "codeHash", "storage", "suicided", "balance",
+               "stateWord", "committedWord", "canTransfer", "ft",
+               "refund", "logs", "logIndex", "accessAddresses", "accessSlots", "transient", "binding", "bindingAccount">>
 
 (* is query number f answered identically in the two observed states *)
 SameField(s1, s2, f) ==
@@ -47,15 +53,7 @@ SameField(s1, s2, f) ==
     THEN \A a \in 1..Len(s1.acct) : s1.acct[a][AcctFields[f]] = s2.acct[a][AcctFields[f]]
     ELSE s1[AllFields[f]] = s2[AllFields[f]]
 
-RestoreTag(f) ==
-  CASE f = 1 -> "Inv.RevertRestores.existence"   [] f = 2 -> "Inv.RevertRestores.empty"
-    [] f = 3 -> "Inv.RevertRestores.nonce"       [] f = 4 -> "Inv.RevertRestores.code"
-    [] f = 5 -> "Inv.RevertRestores.codeSize"    [] f = 6 -> "Inv.RevertRestores.codeHash"
-    [] f = 7 -> "Inv.RevertRestores.storage"     [] f = 8 -> "Inv.RevertRestores.suicided"
-    [] f = 9 -> "Inv.RevertRestores.balance"     [] f = 10 -> "Inv.RevertRestores.refund"
-    [] f = 11 -> "Inv.RevertRestores.logs"       [] f = 12 -> "Inv.RevertRestores.logIndex"
-    [] f = 13 -> "Inv.RevertRestores.accessAddresses" [] f = 14 -> "Inv.RevertRestores.accessSlots"
-    [] f = 15 -> "Inv.RevertRestores.transient"
+RestoreTag(f) == "Inv.RevertRestores." \o FieldName[f]
 
 SnapIndex(id) == IF \E i \in 1..Len(snaps) : snaps[i][1] = id
                  THEN CHOOSE i \in 1..Len(snaps) : snaps[i][1] = id ELSE 0
@@ -80,23 +78,22 @@ DiffClass(d) ==
             [] d.realKind = "storageOnly" -> "Inv.RootAsIfNeverExecuted.extraStorageOnlyAccount"
             [] OTHER                      -> "Inv.RootAsIfNeverExecuted.extraAccount")
   ELSE "Inv.RootAsIfNeverExecuted.differentAccount"
+(* A reverted touch() is a known defect of its own (touchChange.undo removes the address from  *)
+(* the dirty set but cannot re-arm the object's onDirty callback: every later write to that    *)
+(* object is lost at Finalise).  Whatever a history shows after it is filed under one tag, so  *)
+(* that lost writes in histories WITHOUT a reverted touch keep their own signature.            *)
 JudgeRoots(e) ==
   IF e.rootReal = e.rootTwin /\ e.commitReal = e.commitTwin THEN <<>>
-  ELSE IF e.leafDiff = <<>> THEN <<"Inv.RootAsIfNeverExecuted.unclassified">>
+  ELSE IF revTouch THEN <<"Inv.RootAsIfNeverExecuted.afterRevertedTouch">>
+  ELSE IF e.leafDiff = <<>>
+         THEN (IF e.commitReal = e.commitTwin THEN <<"Inv.RootAsIfNeverExecuted.intermediateRootOnly">>
+               ELSE <<"Inv.RootAsIfNeverExecuted.unclassified">>)
   ELSE SetToSeq({DiffClass(e.leafDiff[i]) : i \in 1..Len(e.leafDiff)})
 
 (* the same comparison on the queries: after the calls so far every query answers as it    *)
 (* does on the twin that ran only the surviving calls (a reverted call leaves no trace,    *)
 (* not even one that only a later call reveals, such as the index of the next log)         *)
-TwinTag(f) ==
-  CASE f = 1 -> "Inv.QueriesAsIfNeverExecuted.existence"   [] f = 2 -> "Inv.QueriesAsIfNeverExecuted.empty"
-    [] f = 3 -> "Inv.QueriesAsIfNeverExecuted.nonce"       [] f = 4 -> "Inv.QueriesAsIfNeverExecuted.code"
-    [] f = 5 -> "Inv.QueriesAsIfNeverExecuted.codeSize"    [] f = 6 -> "Inv.QueriesAsIfNeverExecuted.codeHash"
-    [] f = 7 -> "Inv.QueriesAsIfNeverExecuted.storage"     [] f = 8 -> "Inv.QueriesAsIfNeverExecuted.suicided"
-    [] f = 9 -> "Inv.QueriesAsIfNeverExecuted.balance"     [] f = 10 -> "Inv.QueriesAsIfNeverExecuted.refund"
-    [] f = 11 -> "Inv.QueriesAsIfNeverExecuted.logs"       [] f = 12 -> "Inv.QueriesAsIfNeverExecuted.logIndex"
-    [] f = 13 -> "Inv.QueriesAsIfNeverExecuted.accessAddresses" [] f = 14 -> "Inv.QueriesAsIfNeverExecuted.accessSlots"
-    [] f = 15 -> "Inv.QueriesAsIfNeverExecuted.transient"
+TwinTag(f) == "Inv.QueriesAsIfNeverExecuted." \o FieldName[f]
 JudgeTwinQueries(e) ==
   IF e.stateReal.panic # "" \/ e.stateTwin.panic # "" THEN <<"Inv.CallCompletes">>
   ELSE LET fs == SelectSeq([f \in 1..NF |-> IF SameField(e.stateReal, e.stateTwin, f) THEN 0 ELSE f], LAMBDA x : x # 0)
@@ -108,10 +105,16 @@ StartCoherent(e) ==
   /\ \A a \in 1..2 : /\ e.state.acct[a].ex = m.acct[a].ex /\ e.state.acct[a].nonce = m.acct[a].nonce
                      /\ e.state.acct[a].code = m.acct[a].code /\ e.state.acct[a].st = m.acct[a].st
                      /\ e.state.acct[a].sui = m.acct[a].sui /\ e.state.acct[a].bal = BalStr(m.acct[a].bal)
+                     /\ e.state.acct[a].ft = BalStr(m.acct[a].ftOwn) /\ e.state.acct[a].ss = 0
   /\ e.state.refund = 0 /\ e.state.logs = <<0, 0>> /\ e.state.tr = <<0, 0>>
+  /\ e.state.bind = <<FALSE, 0>> /\ ~e.state.bindEx
 
 Judge(e) ==
-  Tag(e.panicked = "" /\ (e.event \in {"Cut", "Final"} \/ e.state.panic = ""), "Inv.CallCompletes") \o
+  (* Snapshot, RevertToSnapshot and the root computations must complete.  A mutator or query that
+     panics (the token-level calls dereference a nil object for an account that Finalise deleted
+     earlier on the same AccountDB) is an observation like any other: its effect is bound. *)
+  Tag(e.event \in {"SNAP", "REV", "FIN", "Cut", "Final"} => e.panicked = "", "Inv.CallCompletes") \o
+  Tag(e.event \in {"Cut", "Final"} \/ e.state.panic = "", "Proj.queriesComplete") \o
   CASE e.event = "Reset" -> Tag(StartCoherent(e), "Proj.startState")
     [] e.event = "SNAP"  -> Tag(\A f \in 1..NF : SameField(st, e.state, f), "Inv.SnapshotIsPure")
     [] e.event = "REV"   -> JudgeRevert(e)
@@ -126,6 +129,7 @@ Restored(e) ==
 
 TraceInit == /\ start = 1 /\ st = <<>> /\ snaps = <<>> /\ nextId = 0 /\ hist = <<>> /\ surv = <<>>
              /\ l = 1 /\ bad = <<>> /\ stats = [f \in 1..(NF + 2) |-> 0] /\ tainted = FALSE
+             /\ ntouch = 0 /\ revTouch = FALSE
 
 TraceNext ==
   /\ l <= Len(Trace)
@@ -139,11 +143,14 @@ TraceNext ==
          /\ start' = IF e.event = "Reset" THEN e.a ELSE start
          /\ snaps' = CASE e.event \in {"Reset", "FIN", "Final"} -> <<>>
                        [] e.event = "Cut" -> snaps
-                       [] e.event = "SNAP" -> Append(snaps, <<e.id, e.state>>)
+                       [] e.event = "SNAP" -> Append(snaps, <<e.id, e.state, ntouch>>)
                        [] e.event = "REV" -> SubSeq(snaps, 1, IF SnapIndex(e.id) = 0 THEN Len(snaps) ELSE SnapIndex(e.id) - 1)
                        [] OTHER -> snaps
          /\ nextId' = IF e.event = "SNAP" THEN e.id + 1 ELSE IF e.event = "Reset" THEN 0 ELSE nextId
          /\ UNCHANGED <<hist, surv>>
+         /\ ntouch' = IF e.event = "Reset" THEN 0 ELSE IF e.event = "AF" /\ e.x = 0 THEN ntouch + 1 ELSE ntouch
+         /\ revTouch' = IF e.event = "Reset" THEN FALSE
+                        ELSE revTouch \/ (e.event = "REV" /\ SnapIndex(e.id) # 0 /\ snaps[SnapIndex(e.id)][3] < ntouch)
          /\ bad' = bad \o Fresh(e.event, j)
          /\ stats' = [f \in 1..(NF + 2) |->
                         IF f <= NF THEN stats[f] + r[f]
